@@ -33,10 +33,16 @@ import (
 	"github.com/gopcua/opcua/server"
 	"github.com/gopcua/opcua/server/attrs"
 	"github.com/gopcua/opcua/ua"
+	"github.com/gopcua/opcua/uapolicy"
+	"github.com/gopcua/opcua/uasc"
 	"verif/engine/evid"
+	"verif/engine/keys"
 )
 
-var c35TokenStates = []string{"null", "unknown", "created-not-activated", "closed", "other-channel", "valid"}
+// "activation-refused": created on a Sign channel, then an ActivateSession whose client signature does not
+// verify was refused; "victim-takeover-refused": the same refused ActivateSession, but for the token of another
+// client's activated session. Neither activates (or re-binds) anything.
+var c35TokenStates = []string{"null", "unknown", "created-not-activated", "activation-refused", "closed", "other-channel", "victim-takeover-refused", "valid"}
 
 var c35Exempt = map[string]bool{
 	"FindServersRequest": true, "FindServersOnNetworkRequest": true, "GetEndpointsRequest": true,
@@ -95,11 +101,49 @@ type c35World struct {
 	vitem  uint32
 	att    *rawChan // the channel the judged request is sent on
 	other  *rawChan
+	signed *rawChan // a Basic256Sha256/Sign channel (for the refused activations)
+}
+
+// openSigned opens the Sign channel the refused activations are attempted on.
+func (w *c35World) openSigned() error {
+	srvKey, cliKey := keys.MustLoad(2048, "a"), keys.MustLoad(2048, "b")
+	cfg := &uasc.Config{
+		SecurityPolicyURI: ua.SecurityPolicyURIBasic256Sha256,
+		SecurityMode:      ua.MessageSecurityModeSign,
+		Lifetime:          3600000,
+		RequestTimeout:    watchdog,
+		Certificate:       cliKey.CertDER,
+		LocalKey:          cliKey.Key,
+		RemoteCertificate: srvKey.CertDER,
+		Thumbprint:        uapolicy.Thumbprint(srvKey.CertDER),
+	}
+	var err error
+	w.signed, err = openRaw(w.url, cfg)
+	if err == nil {
+		w.signed.cert = cliKey.CertDER
+	}
+	return err
+}
+
+// refusedActivation sends an ActivateSession with an empty client signature over the Sign channel; the server
+// must refuse it. An activation that is accepted would make the state meaningless: reported as a set-up failure.
+func (w *c35World) refusedActivation(tok *ua.NodeID) error {
+	err := w.signed.activateSession(tok)
+	if err == nil {
+		return fmt.Errorf("an ActivateSession with an empty client signature was accepted on a Sign channel")
+	}
+	if _, ok := err.(ua.StatusCode); !ok {
+		return fmt.Errorf("ActivateSession with an empty client signature: %v", err)
+	}
+	return nil
 }
 
 func newC35World() (*c35World, error) {
 	w := &c35World{}
-	s, url, err := startServer(noneOpts(), func(s *server.Server) {
+	srvKey := keys.MustLoad(2048, "a")
+	opts := append(noneOpts(), server.PrivateKey(srvKey.Key), server.Certificate(srvKey.CertDER),
+		server.EnableSecurity("Basic256Sha256", ua.MessageSecurityModeSign))
+	s, url, err := startServer(opts, func(s *server.Server) {
 		ns := server.NewNodeNameSpace(s, "urn:verif:c35")
 		w.target = ua.NewStringNodeID(ns.ID(), "target")
 		w.tnode = server.NewNode(w.target, map[ua.AttributeID]*ua.DataValue{
@@ -146,6 +190,9 @@ func (w *c35World) close() {
 	w.victim.Close()
 	w.att.Close()
 	w.other.Close()
+	if w.signed != w.att {
+		w.signed.Close()
+	}
 	w.srv.Close()
 }
 
@@ -176,6 +223,28 @@ func (w *c35World) token(state string, publish bool) (*ua.NodeID, error) {
 		if tok, err = w.att.createSession(w.url); err != nil {
 			return nil, err
 		}
+	case "activation-refused":
+		if err = w.openSigned(); err != nil {
+			return nil, err
+		}
+		if tok, err = w.signed.createSession(w.url); err != nil {
+			return nil, err
+		}
+		if err = w.refusedActivation(tok); err != nil {
+			return nil, err
+		}
+		w.att.Close()
+		w.att, owner = w.signed, w.signed
+	case "victim-takeover-refused":
+		if err = w.openSigned(); err != nil {
+			return nil, err
+		}
+		if err = w.refusedActivation(w.vtok); err != nil {
+			return nil, err
+		}
+		w.att.Close()
+		w.att = w.signed
+		return w.vtok, nil
 	case "closed":
 		if tok, err = w.att.createSession(w.url); err != nil {
 			return nil, err
